@@ -407,7 +407,9 @@ impl World {
                 let valid = connector_config::validate_connector(&c).is_ok();
                 let (st, _) = api!(self, "PUT", &format!("/api/v1/cluster/connectors/{}", name), serde_json::to_value(&c).ok());
                 ctx.count(if st == 200 { "conn.update_ok" } else { "conn.update_rejected" });
-                self.emit(ctx, &format!("connupdate {} {} {}", name, conn_body(&c), if valid { 1 } else { 0 }), if st == 200 { "ok" } else { "rejected" }).await;
+                // `name` = path parameter (the key), `c.name` = the name inside the body: the API does not require them to agree
+                if c.name != name { ctx.count(if st == 200 { "conn.update_ok_body_name_differs" } else { "conn.update_rejected_body_name_differs" }); }
+                self.emit(ctx, &format!("connupdate {} {} {} {}", name, c.name, conn_body(&c), if valid { 1 } else { 0 }), if st == 200 { "ok" } else { "rejected" }).await;
             }
             _ => {
                 let (st, _) = api!(self, "DELETE", &format!("/api/v1/cluster/connectors/{}", name), None);
@@ -490,6 +492,10 @@ impl World {
         { let mut c = self.coord.write().await; let _ = c.evaluate_scaling(); }
     }
 
+    /// (cpu, max) a worker is registered with, and the ids of the Unhealthy workers
+    async fn capacity_of(&self, w: &str) -> Option<(usize, usize)> { self.coord.read().await.workers.get(&WorkerId(w.to_string())).map(|n| (n.capacity.cpu_cores, n.capacity.max_pipelines)) }
+    async fn unhealthy_ids(&self) -> Vec<String> { let c = self.coord.read().await; let mut v: Vec<String> = c.workers.iter().filter(|(_, n)| n.status == WorkerStatus::Unhealthy).map(|(k, _)| k.0.clone()).collect(); v.sort(); v }
+    async fn connector_names(&self) -> Vec<String> { let c = self.coord.read().await; let mut v: Vec<String> = c.connectors.keys().cloned().collect(); v.sort(); v }
     async fn worker_ids(&self) -> Vec<String> { let c = self.coord.read().await; let mut v: Vec<String> = c.workers.keys().map(|k| k.0.clone()).collect(); v.sort(); v }
     async fn groups(&mut self) -> Vec<String> {
         let keys: Vec<String> = { let c = self.coord.read().await; c.pipeline_groups.keys().cloned().collect() };
@@ -575,7 +581,23 @@ async fn scenario(ctx: &mut Ctx, base: &str, script: &Script, idx: u64) {
                 let name = ctx.rng.pick(&["c1", "c2", "9bad"]).to_string();
                 match ctx.rng.below(5) {
                     0 | 1 => { let c = gen_connector(ctx, &name); w.connector(ctx, "create", &name, Some(c)).await; }
-                    2 | 3 => { let c = gen_connector(ctx, &name); w.connector(ctx, "update", &name, Some(c)).await; }
+                    2 | 3 => {
+                        // path: mostly an existing connector, else any name; body name: the path name, another existing
+                        // connector's name, or a fresh one
+                        let mut existing = w.connector_names().await;
+                        if existing.is_empty() && ctx.rng.chance(3, 4) {
+                            // nothing to update yet: create something valid first
+                            let c0 = ClusterConnector { name: "c1".into(), connector_type: "console".into(), params: HashMap::new(), description: None };
+                            w.connector(ctx, "create", "c1", Some(c0)).await;
+                            existing = w.connector_names().await;
+                        }
+                        let path = if !existing.is_empty() && ctx.rng.chance(3, 4) { ctx.rng.pick(&existing).clone() } else { name.clone() };
+                        let others: Vec<String> = ["c1", "c2", "c3", "tmpl"].iter().map(|x| x.to_string()).filter(|x| *x != path).collect();
+                        let body_name = if ctx.rng.chance(1, 2) { path.clone() } else { ctx.rng.pick(&others).clone() };
+                        let mut c = gen_connector(ctx, &body_name);
+                        if ctx.rng.chance(1, 2) { c.connector_type = "console".into(); } // always valid
+                        w.connector(ctx, "update", &path, Some(c)).await;
+                    }
                     _ => w.connector(ctx, "delete", &name, None).await,
                 }
             }
@@ -583,7 +605,11 @@ async fn scenario(ctx: &mut Ctx, base: &str, script: &Script, idx: u64) {
             29 | 30 => { // (re-)registration: also arms `pending_rebalance` when groups exist
                 let max = *ctx.rng.pick(&[2usize, 4, 100]);
                 w.set_time(w.now + ctx.rng.below(50));
-                w.register(ctx, &anyw, 2, 0, max).await;
+                // a reconnecting worker re-sends the registration it is known by (same id, address, key, capacity)
+                match w.capacity_of(&anyw).await {
+                    Some((cpu, mx)) if ctx.rng.chance(1, 2) => { ctx.count("reg.identical_reregistration"); w.register(ctx, &anyw, cpu, 0, mx).await; }
+                    _ => w.register(ctx, &anyw, 2, 0, max).await,
+                }
             }
             31 | 32 => { w.set_time(w.now + ctx.rng.below(200)); w.sync_only(ctx).await; }
             _ => { // a tick of the health loop, now or after silence long enough for a time-out
@@ -596,6 +622,12 @@ async fn scenario(ctx: &mut Ctx, base: &str, script: &Script, idx: u64) {
                 let o: Vec<bool> = (0..8).map(|_| !ctx.rng.chance(1, 6)).collect();
                 let with_sync = !ctx.rng.chance(1, 3);
                 w.tick_opt(ctx, &o, with_sync).await;
+                // a worker that was marked Unhealthy comes back: it registers again with the data it is known by
+                let sick = w.unhealthy_ids().await;
+                if !sick.is_empty() && ctx.rng.chance(1, 2) {
+                    let x = ctx.rng.pick(&sick).clone();
+                    if let Some((cpu, mx)) = w.capacity_of(&x).await { ctx.count("reg.unhealthy_worker_reregisters"); w.set_time(w.now + 5); w.register(ctx, &x, cpu, 0, mx).await; }
+                }
             }
         }
     }
@@ -636,7 +668,14 @@ async fn scenario3(ctx: &mut Ctx, base: &str, script: &Script) {
             2..=4 => { if w.groups().await.len() < 2 { let specs = vec![PSpec { name: "p".into(), aff: None, replicas: 1 + ctx.rng.below(2) as usize }]; let o3 = !ctx.rng.chance(1, 4); w.deploy(ctx, "grp", &specs, &[true, true, o3]).await; } }
             5 => { let gs = w.groups().await; if !gs.is_empty() { let g = ctx.rng.pick(&gs).clone(); w.teardown(ctx, &g).await; } }
             6 | 7 => { let ps = w.placements().await; if !ps.is_empty() { let (g, n, _) = ctx.rng.pick(&ps).clone(); w.manual_migrate(ctx, &g, &n, &anyw, true).await; } }
-            8 | 9 => { let name = ctx.rng.pick(&["c1", "c2"]).to_string(); let cn = gen_connector(ctx, &name); if ctx.rng.chance(2, 3) { w.connector(ctx, "create", &name, Some(cn)).await; } else { w.connector(ctx, "delete", &name, None).await; } }
+            8 | 9 => {
+                let name = ctx.rng.pick(&["c1", "c2"]).to_string();
+                match ctx.rng.below(4) {
+                    0 | 1 => { let cn = gen_connector(ctx, &name); w.connector(ctx, "create", &name, Some(cn)).await; }
+                    2 => { let other = ctx.rng.pick(&["c1", "c2", "tmpl"]).to_string(); let cn = gen_connector(ctx, &other); w.connector(ctx, "update", &name, Some(cn)).await; }
+                    _ => w.connector(ctx, "delete", &name, None).await,
+                }
+            }
             10 => { w.set_time(w.now + 16000); let x = wn(1); let n = w.assigned_len(&x).await; w.heartbeat(ctx, &x, n, 1).await; w.tick(ctx, &[true, true, true, true]).await; }
             _ => { w.set_time(w.now + 20); w.register(ctx, &anyw, 2, 0, 4).await; }
         }
